@@ -315,6 +315,21 @@ class Check(Property):
         """products, quotients and powers of offset quantities: refused unless autoconvert, then via base units"""
         v = []
         f = c["f"]
+        # an offset unit inside a compound unit never takes part in a product or quotient (in any mode)
+        if f in ("mul", "div", "mulnum", "rtruediv") and c["a"]["u"]:
+            operands = [c["a"]] + ([c["b"]] if isinstance(c.get("b"), dict) and "u" in c["b"] else [])
+            if any(len(o["u"]) > 1 and any(kind_of(k) == "O" for k, _ in o["u"]) for o in operands):
+                u = self.reg(c["auto"])
+                try:
+                    r = self.apply(u, c)
+                    v.append(f"C06 {f} a={c['a']} b={c.get('b')} auto={c['auto']}: an offset unit inside a compound unit was "
+                             f"multiplied / divided: {r!r} (OffsetUnitCalculusError expected)")
+                except Exception as exc:  # noqa: BLE001
+                    if type(exc).__name__ not in ("OffsetUnitCalculusError", "ZeroDivisionError"):
+                        v.append(f"C06 {f} a={c['a']} b={c.get('b')} auto={c['auto']}: raised {type(exc).__name__}, not OffsetUnitCalculusError")
+                return v
+        if not c["a"]["u"]:
+            return v
         a = c["a"]["u"][0][0]
         if kind_of(a) != "O" or f in ("eq", "lt", "neg", "floordiv", "mod", "add", "sub", "rsub"):
             return v
